@@ -44,6 +44,16 @@ impl Check for C01 {
         let prog = Gen::new(&mut t, cfg).program();
         let mut plan = SurfacePlan::default();
         plan.annot_default = (t.chance(1, 4), true, true);
+        // a third of the programs are written in a random top-level order (definitions used before they are written)
+        if t.chance(1, 3) {
+            let n = prog.blobs.len() + prog.enums.len() + prog.globals.len();
+            let mut v: Vec<usize> = (0..n).collect();
+            for i in (1..n).rev() {
+                let j = t.below(i + 1);
+                v.swap(i, j);
+            }
+            plan.order = Some(v);
+        }
         let source = render(&prog, &plan).text;
         Some(ProgCase { prog, plan, source })
     }
@@ -72,7 +82,7 @@ impl Check for C01 {
     }
 
     fn rule(&self) -> String {
-        "cases: type-directed random well-typed Sylt programs (GenAST core profile) decoded from a byte tape; \
+        "cases: type-directed random well-typed Sylt programs (GenAST core profile) decoded from a byte tape, a third of them written in a random top-level order; \
          oracle: printed lines + terminal (Ok / assert failed / <!> with line) of the reference interpreter equal \
          those of mini-Lua running the emitted chunk; non-trivial = accepted, unambiguous, >=3 trace events, >=4 of 24 \
          construct classes executed, at least one branch and one user/closure call executed; distinct by hash of the case"
@@ -91,7 +101,7 @@ impl Check for C01 {
             return Ok(());
         }
         let acc = s.label("accepted") as f64 / s.evaluations as f64;
-        if acc < 0.5 {
+        if acc < 0.9 {
             return Err(format!("only {:.0}% of generated programs are accepted by the compiler", acc * 100.0));
         }
         if s.label("ref-dynerror") * 50 > s.evaluations {
